@@ -7,6 +7,8 @@ Oracle : ''.join(decode(rechunk(concat(encode(strs))))) == ''.join(strs); second
 """
 import itertools
 
+import random
+
 import rx
 
 from .. import chunking
@@ -72,7 +74,8 @@ class C17(Check):
             yield case
 
     def _generate(self, rng, tier, shard, nshards):
-        return interleave(self._small(tier, shard, nshards), self._random(rng, tier))
+        r2 = random.Random(rng.randrange(1 << 30))
+        return interleave(self._small(tier, shard, nshards), self._random(rng, tier), self._rand(r2, tier))
 
     def _small(self, tier, shard, nshards):
         small = 9 if tier == 'quick' else 12
@@ -108,7 +111,6 @@ class C17(Check):
     def _random(self, rng, tier):
         nsingle = 60 if tier == 'quick' else 300
         dbl = 0 if tier == 'quick' else 120
-        nrand = 5000 if tier == 'quick' else 10 ** 7
         for k in range(nsingle):
             enc = ENCODINGS[k % 4]
             strs = self._rand_strs(rng, enc)
@@ -119,6 +121,9 @@ class C17(Check):
             else:
                 for a in range(1, ln):
                     yield self._mk(enc, strs, (a,))
+
+    def _rand(self, rng, tier):
+        nrand = 5000 if tier == 'quick' else 10 ** 7
         for k in range(nrand):
             enc = rng.choice(ENCODINGS)
             if k % 250 == 125:
